@@ -249,17 +249,6 @@ def judge_e2e(case):
     mr, pw = obs['mrmr'], obs['pairwise']
     if mr is None or pw is None:
         return [f'3mr_ranks.tsv / pairwise_ranks.tsv missing (exit={obs["exit"]})']
-    feats = [r[0] for r in mr[1:]]
-    ranks = [int(r[1]) for r in mr[1:]]
-    fails = []
-    # with interaction_order 2 the ' AND ' features are features as well; relation (' AND_REL ') columns are not
-    cols = sorted({x for r in pw[1:] for x in r[:2] if x != 'label' and ' AND_REL ' not in x})
-    if case.get('interaction_order', 1) == 1 and cols != sorted(e2e_text(case['ncols'], case['label_pos'])[1]):
-        return [f'pairwise_ranks.tsv mentions features {cols}']
-    if sorted(feats) != sorted(cols):
-        return [f'3mr_ranks.tsv lists {feats}, the non-label features are {cols}']
-    if ranks != list(range(1, len(cols) + 1)):
-        fails.append(f'ranks {ranks}')
     rows = [(a, b, float(s)) for a, b, s in pw[1:]]
 
     def norm(d):
@@ -272,7 +261,19 @@ def judge_e2e(case):
     rln0 = norm({a: s for a, b, s in rows if b == 'label' and ' AND_REL ' in a})
     red = norm({(a, b): s for a, b, s in rows if a != 'label' and b != 'label' and ' AND_REL ' not in a and ' AND_REL ' not in b})
     if rel is None or red is None or rln0 is None or any(math.isnan(v) for d in (rel, red, rln0) for v in d.values()):
-        return fails + ['__degenerate__']     # degenerate normalisation: scores are not finite, the statement does not apply
+        # a constant score family normalises to 0/0: the three dictionaries are not finite and the statement does not apply
+        return ['__degenerate__']
+    feats = [r[0] for r in mr[1:]]
+    ranks = [int(r[1]) for r in mr[1:]]
+    fails = []
+    # with interaction_order 2 the ' AND ' features are features as well; relation (' AND_REL ') columns are not
+    cols = sorted({x for r in pw[1:] for x in r[:2] if x != 'label' and ' AND_REL ' not in x})
+    if case.get('interaction_order', 1) == 1 and cols != sorted(e2e_text(case['ncols'], case['label_pos'])[1]):
+        return [f'pairwise_ranks.tsv mentions features {cols}']
+    if sorted(feats) != sorted(cols):
+        return [f'3mr_ranks.tsv lists {feats}, the non-label features are {cols}']
+    if ranks != list(range(1, len(cols) + 1)):
+        fails.append(f'ranks {ranks}')
     rln = {}
     for a, s in rln0.items():
         x, y = a.split(' AND_REL ')
